@@ -66,7 +66,7 @@ for (_m, _K) in [(1, 1), (2, 2), (2, 3), (3, 3)]:
 _rect_task(2, 2, "vec1")
 _rect_task(2, 2, "zero", lower_kind="i")     # integer-dtype lower bounds with real upper bounds: no value may be truncated
 _rect_task(2, 2, "vec", lower_kind="i")
-_rect_task(3, 4, "vec", tier="thorough")
+_rect_task(3, 4, "vec")
 _rect_task(4, 4, "vec", tier="thorough")
 
 
